@@ -8,6 +8,7 @@ import math
 
 import pysnark.runtime
 from pysnark.runtime import LinComb
+from pysnark.boolean import LinCombBool
 
 PRIME = pysnark.runtime.backend.get_modulus()
 
@@ -49,7 +50,7 @@ def ggh_hash_plain(bits):
     return total
 
 def ggh_hash_nonplain(bits):
-    total = 0
+    total = LinComb.ZERO
     for i, b in enumerate(bits):
         total = (total + b * SHA512_prng(i))
         total.value = total.value % PRIME
@@ -59,7 +60,7 @@ def rand_bits(count):
     return [random.randint(0, 1) for i in xrange(count)]
 
 def ggh_hash(bits):
-    if any(map(lambda x: isinstance(x, LinComb), bits)):
+    if any(map(lambda x: isinstance(x, (LinComb, LinCombBool)), bits)):
         return ggh_hash_nonplain(bits)
     else:
         return ggh_hash_plain(bits)
